@@ -144,11 +144,19 @@ def hasDup : List Nat → Bool
   | [] => false
   | a :: r => r.contains a || hasDup r
 
-/-- which wrapper a slice of `sub` gets (`elemIsPtr`: the element *type* is a pointer). -/
-def sliceWrap (cfg : Cfg) (tag : String) (elemIsPtr : Bool) (sub : Ty) : Res Ty :=
+/-- the element type's kind is float32 or float64 (defined float types included). -/
+def TyDef.isFloatKind (d : TyDef) : Bool :=
+  match d.kind with
+  | .basic .f32 | .basic .f64 => true
+  | _ => false
+
+/-- which wrapper a slice of `sub` gets. `notFloat`: the element *type* is not of
+kind float32/float64 — a pointer to a float or a nullable float, whose codec has
+a fixed wire type but whose elements can be absent: rejected. -/
+def sliceWrap (cfg : Cfg) (tag : String) (notFloat : Bool) (sub : Ty) : Res Ty :=
   match sub.wt with
   | .varint => .ok (.vslice sub)
-  | .w64 | .w32 => if elemIsPtr then .err else .ok (.fslice sub)
+  | .w64 | .w32 => if notFloat then .err else .ok (.fslice sub)
   | .len => if cfg.protoArrays || tag == "proto" then .ok (.pslice sub) else .ok (.lslice sub)
   | _ => .err
 
@@ -186,7 +194,7 @@ def build (cfg : Cfg) : TyDef → String → Res Ty
       | none =>
         if t.kind = .map then .err else
         match build cfg t "" with
-        | .ok c => sliceWrap cfg tag (t.kind = .ptr) c
+        | .ok c => sliceWrap cfg tag (!t.isFloatKind) c
         | e => e
   | .map k v, tag =>
       if v.kind = .map then .err else
@@ -221,7 +229,7 @@ def buildNamed (cfg : Cfg) (n : String) : TyDef → String → Res Ty
   | .slice t, tag =>
       if t.kind = .map then .err else
       match build cfg t "" with
-      | .ok c => sliceWrap cfg tag (t.kind = .ptr) c
+      | .ok c => sliceWrap cfg tag (!t.isFloatKind) c
       | e => e
   | .map k v, tag =>
       if v.kind = .map then .err else
@@ -245,7 +253,8 @@ def buildFields (cfg : Cfg) : FieldDefs → Res Fields
       match atoi idxS with
       | none => .err
       | some idx =>
-        if idx < 0 then .err else
+        -- negative, or beyond the protobuf field number range (maxFieldIndex = 2^29 - 1)
+        if idx < 0 ∨ idx > 536870911 then .err else
         let wantIntern := pfx == some "intern"
         let sub := if wantIntern then "" else pfx.getD ""
         match build cfg t sub with
